@@ -55,6 +55,10 @@ def view(self, t):
         flat = self.vals.reshape(self.vals.shape[:-2] + (-1,))
         return SymArray(flat.reshape(flat.shape[:-1] + (flat.shape[-1] // dt.itemsize, dt.itemsize)), dt)
     if src.kind not in "iub" or dt.kind not in "iub":
+        if not A.has_sym(self):
+            # bit patterns of concrete values (e.g. float64 <-> uint64): the real reinterpretation
+            real = _np.array(self.vals.tolist(), dtype=src).reshape(self.vals.shape).view(dt)
+            return A.wrap_real(real) if hasattr(A, "wrap_real") else SymArray(A.obj(real), dt)
         raise UnsupportedSymbolicOp(f"view {src} -> {dt}")
     if src.itemsize == dt.itemsize:
         if dt == bool:
